@@ -49,3 +49,6 @@ func init() {
 		return &lenstr{lift(types.Int64, a[0])}
 	}
 }
+
+// lenbytes: a []byte slice whose length is symbolic (content abstracted away).
+type lenbytes struct{ n *Term }
